@@ -15,6 +15,9 @@ def pure(ctx, rule, qn, ps, ignore=()):
 
 
 def check(ctx):
+    from ..lib import discarded_results
+    ctx.sub(discarded_results, 'C19.S1', ('qstrader/asset/universe/', 'qstrader/alpha_model/', 'qstrader/portcon/optimiser/'),
+            'membership, signal weights and optimiser outputs are computed from what the code actually sorts and filters')
     ctx.sub(s1_membership)
     s2_s3(ctx)
 
